@@ -211,7 +211,7 @@ fn gen_cmd(rng: &mut Rng, uid: &mut u64) -> ClusterCommand {
         13 => ClusterCommand::ScalingPolicySet { policy: if rng.chance(1, 4) { None } else { Some(json!({"min_workers": 1, "max_workers": 2 + rng.below(8), "scale_up_threshold": 5.5, "scale_down_threshold": 1.0, "cooldown_secs": u})) } },
         14 => ClusterCommand::ModelRegistered {
             name: md.clone(),
-            entry: varpulis_cluster::model_registry::ModelRegistryEntry { name: md, s3_key: format!("s3/{}", u), format: "onnx".into(), inputs: vec!["x".into()], outputs: vec![format!("y{}", u)], size_bytes: u, uploaded_at: format!("2024-01-01T00:00:{:02}Z", u % 60), description: if rng.chance(1, 2) { String::new() } else { format!("m{}", u) } },
+            entry: varpulis_cluster::model_registry::ModelRegistryEntry { name: md, s3_key: format!("s3/{}", u), format: "onnx".into(), inputs: vec!["x".into()], outputs: vec![format!("y{}", u)], size_bytes: u, uploaded_at: if rng.chance(1, 3) { String::new() } else { format!("2024-01-01T00:00:{:02}Z", u % 60) }, description: if rng.chance(1, 2) { String::new() } else { format!("m{}", u) } },
         },
         _ => ClusterCommand::ModelRemoved { name: format!("md{}", rng.below(2)) },
     }
